@@ -10,6 +10,18 @@ for d in sorted(os.listdir(root)):
     m = json.load(open(f))
     note = m["needs_to_manifest"].strip().splitlines()
     first = next((l for l in note if l.lower().startswith(("change", "- change", "**change"))), note[0] if note else "")
-    first = re.sub(r"^[-*\s]*\**change:?\**:?\s*", "", first, flags=re.I).replace("|", "/")[:240]
-    checks = ", ".join(f"{k}: {'caught' if v['detected'] else 'not caught'} ({int(v['wall_s'])} s)" for k, v in m["checks_run_against_it"].items())
-    print(f"| {m['id']} | {m['breaks_property']} | {first} | {checks} |")
+    first = re.sub(r"^[-*#\s]*\**change[^:]{0,12}:?\**:?\s*", "", first, flags=re.I).replace("|", "/")[:200]
+    checks = ", ".join(f"{k}: {'caught' if v['detected'] else 'not caught'}" for k, v in m["checks_run_against_it"].items())
+    fp = m.get("final_pass") or {}
+    if not fp:
+        final = "-"
+    elif not fp.get("applies"):
+        final = "patch no longer applies"
+    else:
+        final = f"{fp['check']}: {'caught' if fp.get('detected') else 'not caught'}"
+    for k, v in m.items():
+        if k.startswith("final_pass_") and v.get("applies"):
+            final += f"; {v['check']}: {'caught' if v.get('detected') else 'not caught'}"
+    if m.get("note"):
+        final += " (see note)"
+    print(f"| {m['id']} | {m['breaks_property']} | {first} | {checks} | {final} |")
